@@ -146,6 +146,11 @@ func (p parser) transform(n *yaml.Node) (Node, error) {
 		return nil, fmt.Errorf("empty YAML file given")
 	case yaml.MappingNode:
 		t = TypeIDMap
+		for i := 0; i < len(n.Content); i += 2 {
+			if n.Content[i].Kind != yaml.ScalarNode {
+				return nil, fmt.Errorf("unsupported non-scalar map key on line %d", n.Content[i].Line)
+			}
+		}
 	case yaml.SequenceNode:
 		t = TypeIDSequence
 	case yaml.ScalarNode:
